@@ -269,6 +269,14 @@ def ind(b):
     return root(('ind', b))
 
 
+NUMERIC_ROOT_TAGS = ('p', 'v', 'bv', 'f', 'call', 'case', 'idx', 'havoc', 'try', 'unwrap', 'optor', 'pos', 'min', 'max',
+                     'sum', 'len', 'count', 'item', 'cp', 'mul', 'div', 'rem', 'ind')
+
+
+def _numeric_root(t):
+    return isinstance(t, tuple) and bool(t) and t[0] in NUMERIC_ROOT_TAGS
+
+
 def ite(c, t, e):
     if c == TRUE:
         return t
@@ -276,7 +284,8 @@ def ite(c, t, e):
         return e
     if t == e:
         return t
-    if is_lin(t) and is_lin(e):
+    if is_lin(t) or is_lin(e) or (_numeric_root(t) and _numeric_root(e)):
+        t, e = as_lin(t), as_lin(e)
         # guarded-subtraction idiom: if d >= 1 (or d >= 0) { e + d } else { e }
         d = sub(t, e)
         if c == le0(sub(const(1), d)) or c == le0(neg(d)):
@@ -352,7 +361,8 @@ def mentions(t, needle):
 
 
 def substitute(t, mapping):
-    """Replace sub-terms (roots) by other terms, renormalising linear forms."""
+    """Replace sub-terms (roots) by other terms, renormalising linear forms.  Capture-avoiding for the
+    bound variable of a lambda: ('bv', d) is not replaced below a ('lam', d, ..) that rebinds it."""
     if t in mapping:
         return mapping[t]
     if not isinstance(t, tuple):
@@ -362,7 +372,9 @@ def substitute(t, mapping):
         for r, c in t[2]:
             acc = add(acc, scale(as_lin(substitute(r, mapping)), c))
         return acc
-    tag = t[0] if t else None
+    if len(t) == 3 and t[0] == 'lam' and ('bv', t[1]) in mapping:
+        inner = {k: v for k, v in mapping.items() if k != ('bv', t[1])}
+        return ('lam', t[1], substitute(t[2], inner) if inner else t[2])
     new = tuple(substitute(x, mapping) for x in t)
     return renorm(new)
 
@@ -467,6 +479,11 @@ def show(t, top=True):
         return 'ind' + show(t[1], False)
     if tag == 'lam':
         return 'λ$' + str(t[1]) + '. ' + show(t[2])
+    if tag == 'match':
+        return 'match ' + show(t[1]) + ' {' + '; '.join(
+            str(a[0]).split('::')[-1] + (' if ' + show(a[1]) if a[1] is not None else '') + ' => ' + show(a[2]) for a in t[2]) + '}'
+    if not isinstance(tag, str):
+        return '(' + ', '.join(show(x) for x in t) + ')'
     if tag in ('mul', 'div', 'rem'):
         op = {'mul': '*', 'div': '/', 'rem': '%'}[tag]
         return '(' + show(t[1], False) + ' ' + op + ' ' + show(t[2], False) + ')'
@@ -503,3 +520,49 @@ def norm_bv(t):
     if not idx:
         return t
     return shift_bvs(t, -min(idx))
+
+
+# ------------------------------------------------------------------ canonical form
+
+def canon(t):
+    """One representation per value: a linear form that is just `1*root + 0` is written as the root itself
+    wherever it occurs inside another term; bound variables are numbered by binder nesting."""
+    return _canon(alpha(t))
+
+
+def _canon(t):
+    if not isinstance(t, tuple):
+        return t
+    if is_lin(t):
+        acc = const(t[1])
+        for r, c in t[2]:
+            acc = add(acc, scale(as_lin(_canon(r)), c))
+        r = single_root(acc)
+        return r if r is not None else acc
+    return tuple(_canon(x) for x in t)
+
+
+def same(a, b):
+    return canon(a) == canon(b)
+
+
+def alpha(t, env=None, depth=0):
+    """rename bound variables by binder nesting depth (free ones keep their index, shifted past the bound range)"""
+    if env is None:
+        env = {}
+    if not isinstance(t, tuple):
+        return t
+    if len(t) == 2 and t[0] == 'bv' and isinstance(t[1], int):
+        return ('bv', env[t[1]]) if t[1] in env else t
+    if len(t) == 3 and t[0] == 'lam' and isinstance(t[1], int):
+        d = t[1]
+        env2 = dict(env)
+        env2[d] = depth
+        nxt = depth + 1
+        if mentions(t[2], ('bv', d + 1)) and (d + 1) not in env:
+            env2[d + 1] = depth + 1
+            nxt = depth + 2
+        return ('lam', depth, alpha(t[2], env2, nxt))
+    if is_lin(t):
+        return lin(t[1], {alpha(r, env, depth): c for r, c in t[2]})
+    return tuple(alpha(x, env, depth) for x in t)
